@@ -59,3 +59,51 @@ fn c10_link_first_sanity() {
     static CFG: VCfg = VCfg { mode: 1, target: 0, mute: true, ..crate::vsup::VCFG0 };
     link_first_rdh(&CFG);
 }
+
+/// the first header is the crate's own conforming sample (HBF start, page 0, no stop); the second is arbitrary.
+fn link_second_rdh(cfg: &'static VCfg) {
+    let (tx, rx) = flume::unbounded();
+    crate::vsup::reset();
+    let (mut lv, data_tx) = LinkValidator::<RdhCru, VCfg>::with_chan_capacity(cfg, tx, None);
+    let first = alice_protocol_reader::prelude::test_data::CORRECT_RDH_CRU_V7;
+    let mut fb = [0u8; 64];
+    fb.copy_from_slice(first.to_byte_slice());
+    let pos0: u64 = kani::any();
+    kani::assume(pos0 < (1u64 << 40));
+    lv.do_rdh_checks(&first, pos0);
+    let b: [u8; 64] = kani::any();
+    let pos: u64 = kani::any();
+    kani::assume(pos < (1u64 << 40) && pos != pos0);
+    let rdh = RdhCru::from_buf(&b).unwrap();
+    lv.do_rdh_checks(&rdh, pos);
+    let o = crate::vsup::observe(&rx);
+    let its = cfg.target != 0;
+    let sane = ref_rdh_sane(&b, fb[0], its);
+    let mut m = RefRdhRunning::new();
+    let first_err = cfg.mode == 2 && m.step(&fb);
+    let running_err = cfg.mode == 2 && m.step(&b);
+    assert!(!first_err, "oracle rejects the sample header");
+    assert!(o.n_err == (!sane) as usize + running_err as usize, "second RDH: number of RDH errors differs from (sanity violated) + (running rule violated and check all)");
+    assert!(o.all_at(pos), "an RDH error of the second header does not carry that header's offset");
+    if !sane {
+        assert!(o.any_at(b"[E10]", pos), "RDH sanity violation of the second header not reported as [E10] at its offset");
+    }
+    kani::cover!(o.n_err == 0, "conforming second RDH");
+    kani::cover!(!sane && !running_err, "sanity only");
+    kani::cover!(o.n_err == 2 || cfg.mode != 2, "both errors (check all)");
+    core::mem::forget(lv);
+    core::mem::forget(data_tx);
+    core::mem::forget(rx);
+}
+
+//@ harness: c10_link_second_all_its props=C10,C07 also=C02 tier=quick class=functional covers=3 mem=16 timeout=1500 est=250
+//@ bounds: LinkValidator::do_rdh_checks, check all its, muted: conforming sample header (HBF start) then ONE arbitrary 64-byte second header at an arbitrary other offset: #errors = sanity violated (Header ID relative to the first) + running violated; every error carries the SECOND header's offset
+#[kani::proof]
+#[kani::unwind(4)]
+#[kani::stub(alloc::fmt::format, crate::vsup::stub_format)]
+#[kani::stub(core::fmt::write, crate::vsup::stub_write)]
+#[kani::stub(flume::Sender::send, crate::vsup::stub_send)]
+fn c10_link_second_all_its() {
+    static CFG: VCfg = VCfg { mode: 2, target: 1, mute: true, ..crate::vsup::VCFG0 };
+    link_second_rdh(&CFG);
+}
